@@ -216,7 +216,7 @@ def _mk_token(I, cls, i, ctx):
     if cls == 'hyb_bind': return T('Hybrid', [e('HybridOp', 'Bind'), nm('x'), none]), ('hyb', 'bind', tuple(map(ord, 'x')), None)
     if cls == 'hyb_jump': return T('Hybrid', [e('HybridOp', 'Jump'), nm('x'), none]), ('hyb', 'jump', tuple(map(ord, 'x')), None)
     if cls == 'hyb_exists_dom': return T('Hybrid', [e('HybridOp', 'Exists'), nm('y'), Agg('Option', 1, [nm('d')])]), ('hyb', 'exists', tuple(map(ord, 'y')), tuple(map(ord, 'd')))
-    if cls in ('and', 'or', 'xor', 'imp', 'iff', 'EU', 'AW'): return T('Binary', [e('BinaryOp', TR.BIN[cls])]), ('bin', cls)
+    if cls in TR.BIN: return T('Binary', [e('BinaryOp', TR.BIN[cls])]), ('bin', cls)
     if cls in ('not', 'EX', 'AG'): return T('Unary', [e('UnaryOp', TR.UN[cls])]), ('un', cls)
     A = lambda variant, fields: Agg('Atomic', I.enums['Atomic'].index(variant), fields)
     if cls == 'prop':
@@ -232,7 +232,8 @@ def sc_c05_tokens(ctx, p):
     """parse_hctl_tokens on every sequence of p['L'] tokens over TOKEN_CLASSES (choices) vs the reference parser"""
     I = interp(); I.ctx = ctx; I.steps = 0
     classes = p.get('classes') or TOKEN_CLASSES
-    seq = [classes[ctx.choose(len(classes), f't{i}')] for i in range(p['L'])]
+    if p.get('pattern'): seq = [cl[ctx.choose(len(cl), f't{i}')] for i, cl in enumerate(p['pattern'])]
+    else: seq = [classes[ctx.choose(len(classes), f't{i}')] for i in range(p['L'])]
     pairs = [_mk_token(I, c, i, ctx) for i, c in enumerate(seq)]
     vec = RVec([x[0] for x in pairs]); rt = [x[1] for x in pairs]
     out = {'ok': True, 'seq': seq}
@@ -827,10 +828,76 @@ def ws_domain(c):
     from .mirsym.interp import WS_ASCII, REPS
     return z3.Or([c == x for x in (9, 10, 13, 32)] + [c == r[0] for r in REPS if r[1]])
 
+LEVEL = {'iff': 0, 'imp': 1, 'or': 2, 'xor': 3, 'and': 4, 'EU': 5, 'AU': 5, 'EW': 5, 'AW': 5}
+def min_paren(t, top=True):
+    """text with the fewest parentheses the documented precedence / right-associativity allows"""
+    def lvl(x):
+        op = x[0]
+        if op in LEVEL: return LEVEL[op]
+        if op in ('not',) or op in R.UN_KW: return 6
+        if op in ('bind', 'exists', 'forall', 'jump'): return -1
+        return 7
+    def wrap(x, need): return '(' + go(x, True) + ')' if need else go(x, False)
+    def go(x, start):
+        op = x[0]
+        if op == 'true': return 'true'
+        if op == 'false': return 'false'
+        if op == 'prop': return ''.join(chr(c) for c in x[1])
+        if op == 'var': return '{' + x[1] + '}'
+        if op == 'wild': return '%' + ''.join(chr(c) for c in x[1]) + '%'
+        if op == 'not': return '~' + wrap(x[1], lvl(x[1]) < 6)
+        if op in R.UN_KW: return op + ' ' + wrap(x[1], lvl(x[1]) < 6)
+        if op in LEVEL:
+            l = LEVEL[op]; sym = R.SYM.get(op, op)
+            return wrap(x[1], lvl(x[1]) <= l) + ' ' + sym + ' ' + wrap(x[2], lvl(x[2]) < l)
+        if op == 'jump': return '@{' + x[1] + '}: ' + go(x[2], True)
+        d = '' if x[2] is None else ' in %' + ''.join(chr(c) for c in x[2]) + '%'
+        return R.HSYM[op] + '{' + x[1] + '}' + d + ': ' + go(x[3], True)
+    return go(t, True)
+
+def c08_minparen_bases():
+    o = lambda s_: tuple(map(ord, s_))
+    a, b, c, d = [('prop', o(f'v{i % 2}')) for i in range(4)]
+    W = ('wild', o('w'))
+    out = []
+    T4 = ['EU', 'AU', 'EW', 'AW']
+    for o1 in T4:
+        for o2 in T4: out += [(o1, a, (o2, W, b)), (o1, (o2, a, W), b)]
+    B5 = ['iff', 'imp', 'or', 'xor', 'and']
+    for o1 in B5 + ['EU', 'AW']:
+        for o2 in B5 + ['AU']: out += [(o1, a, (o2, b, W)), (o1, (o2, a, b), W)]
+    out += [('not', ('EU', a, b)), ('EU', ('not', a), ('EX', b)), ('AG', ('and', a, W)), ('and', ('AG', a), W), ('bind', 'A', None, ('and', ('var', 'A'), ('exists', 'B', None, ('EU', ('var', 'B'), ('var', 'A'))))),
+            ('and', a, ('bind', 'A', None, ('EX', ('var', 'A')))), ('EX', ('bind', 'A', None, ('AX', ('var', 'A')))), ('iff', ('imp', a, b), ('or', ('xor', a, W), ('and', b, ('AW', a, ('EU', b, W)))))]
+    return out
+
+def full_paren(t):
+    op = t[0]
+    if op == 'true': return 'true'
+    if op == 'false': return 'false'
+    if op == 'prop': return ''.join(chr(c) for c in t[1])
+    if op == 'var': return '{' + t[1] + '}'
+    if op == 'wild': return '%' + ''.join(chr(c) for c in t[1]) + '%'
+    if op == 'not': return '(~' + full_paren(t[1]) + ')'
+    if op in R.UN_KW: return '(' + op + ' ' + full_paren(t[1]) + ')'
+    if op in LEVEL: return '(' + full_paren(t[1]) + ' ' + R.SYM.get(op, op) + ' ' + full_paren(t[2]) + ')'
+    if op == 'jump': return '(@{' + t[1] + '}: ' + full_paren(t[2]) + ')'
+    d = '' if t[2] is None else ' in %' + ''.join(chr(c) for c in t[2]) + '%'
+    return '(' + R.HSYM[op] + '{' + t[1] + '}' + d + ': ' + full_paren(t[3]) + ')'
+
 def sc_c08(ctx, p):
     I = interp(); I.ctx = ctx; I.steps = 0
     from .mirsym import biomodel
     M = biomodel.Model(2, 0); biomodel.install(I, M)
+    if p['kind'] == 'minparen':
+        mb = c08_minparen_bases(); bi = ctx.choose(len(mb), 'base'); phi = mb[bi]
+        base_text = [ord(ch) for ch in full_paren(phi)]; text = [ord(ch) for ch in min_paren(phi)]
+        cx = Ptr(Cell(biomodel.CtxObj(M)))
+        r0 = I.run(I.fn('parse_and_minimize_extended_formula'), [cx, RStr(base_text)])
+        r1 = I.run(I.fn('parse_and_minimize_extended_formula'), [cx, RStr(text)])
+        out = {'ok': True, 'group': 'minimal parentheses'}
+        if r0.variant != 0 or r1.variant != 0 or I.equal(r0.fields[0], r1.fields[0]) is not True:
+            out.update({'ok': False, 'why': 'text with minimal parentheses preprocesses differently from the fully parenthesised text', 'text': show(text), 'base': show(base_text)})
+        return out
     bases = c08_bases()
     bi = ctx.choose(len(bases), 'base'); phi = bases[bi]
     o = lambda s_: tuple(map(ord, s_))
